@@ -399,6 +399,10 @@ int main(int argc, char** argv) {
   BoxOpts ow = wide_layer({CFG_NATIVE});
   std::vector<ApiGroup> wgroups = api_groups(ow);
   ctx.parallel(wgroups.size(), [&](uint64_t i) { part3(ctx, wgroups[i], ow, cf); }, "public API under every cfg, wide shapes");
+  BoxOpts ot = top_layer();
+  std::vector<ApiGroup> tgroups;
+  for (auto& G : api_groups(ot)) if (G.fam == F_VEC || G.fam == F_NORM) tgroups.push_back(G);  // the integer families (the transforms at N = 65536 are C01 / C06 / C03 business)
+  ctx.parallel(tgroups.size(), [&](uint64_t i) { part3(ctx, tgroups[i], ot, cf); }, "public API under every cfg, N = 65536");
   ctx.parallel(1, [&](uint64_t) { part4(ctx); }, "dispatch identity");
   std::vector<uint64_t> ms5; for (uint64_t m = 1; m <= (th ? 1024u : 64u); m *= 2) ms5.push_back(m);
   ctx.parallel(ms5.size(), [&](uint64_t i) { part5(ctx, ms5[i]); }, "parameterised constructors under every cfg");
